@@ -362,7 +362,10 @@ def c07_atoms(tier):
             "AnyFrom('b', 'd')", "AnyFrom('\\n', ' ')", "AnyFrom('(', ')')", "AnyFrom('_', 'Z')", "AnyFrom('`', '{')",
             'AnyLetter()', 'AnyDigit()', 'AnyWordChar()', 'AnyWordChar(is_global=True)', 'AnyPunctuation()',
             'AnyWhitespace()', 'AnyLowercaseLetter()', 'AnyUppercaseLetter()', 'Any()', 'AnyGreekLetter()',
-            'AnyGermanLetter()', "AnyBetween('0', '4')", "AnyBetween('5', '9')", "AnyBetween('a', 'z')"]
+            'AnyGermanLetter()', "AnyBetween('0', '4')", "AnyBetween('5', '9')", "AnyBetween('a', 'z')",
+            "AnyBetween('\\x00', '\\x7f')", "AnyBetween('\\x00', '\\x1f')", "AnyFrom('\\x00')", "AnyBetween('a', '\\U0010ffff')",
+            "AnyFrom('\\U0010ffff')", "AnyBetween('\\U0010fff0', '\\U0010ffff')", "AnyFrom('\\x00', '\\x01', 'a')",
+            "AnyFrom('\\U0010fffe', '\\U0010ffff', 'a')", "AnyBetween('\\ud7ff', '\\ue000')"]
     neg = ["AnyButFrom('a', 'c')", "AnyButFrom('b')", "AnyButBetween('b', 'f')", "AnyButBetween('a', 'h')",
            'AnyButDigit()', 'AnyButWordChar()', 'AnyButWordChar(is_global=True)', 'AnyButLetter()',
            'AnyButWhitespace()', 'AnyButPunctuation()', "AnyButFrom(']', '[')", "AnyButFrom('-', '^')",
@@ -589,6 +592,47 @@ def _task_c07(arg):
     return acc
 
 
+def _task_second_use(arg):
+    """the second operation on the same class object must give what it gives on a fresh object"""
+    xs, steps = arg
+    acc = new_acc()
+    for x in xs:
+        for (op1, a1), (op2, a2) in itertools.product(steps, repeat=2):
+            e1 = f"x {op1} ({a1})" if op1 != '~' else "~x"
+            e2 = f"x {op2} ({a2})" if op2 != '~' else "~x"
+            src_used = f"(lambda x: [_try(lambda: {e1}), {e2}][1])({x})"
+            src_fresh = e2.replace('x', f'({x})', 1)
+            acc['cases'] += 1
+            ns = dict(_NS)
+            ns['_try'] = _try
+            outs = []
+            for src in (src_used, src_fresh):
+                (k, v), _ = vset.run_with(None, lambda: eval(src, ns))
+                acc['executions'] += 1
+                if k == 'ok':
+                    try:
+                        outs.append(('den',) + den.of_text(str(v)))
+                    except (re.error, ValueError, rx.Unparsable):
+                        outs.append(('text', str(v)))
+                else:
+                    outs.append(('raise', type(v).__name__))
+            if outs[0] != outs[1]:
+                acc['viol'].append(V(f"C07|second-use|{x}|{e1}|{e2}",
+                                     f"x = {x}; {e1}; then {e2} gives {outs[0][:2]!r}, on a fresh object {outs[1][:2]!r}",
+                                     f"from mc.props.c20 import sig_of\nx = {x}\ntry:\n    {e1}\nexcept Exception:\n    pass\n"
+                                     f"def out(f):\n    try:\n        r = f()\n    except Exception as e:\n        return type(e).__name__\n"
+                                     f"    from mc import den\n    return den.of_text(str(r))\n"
+                                     f"assert out(lambda: {e2}) == out(lambda: {src_fresh})"))
+    return acc
+
+
+def _try(f):
+    try:
+        return f()
+    except Exception:  # noqa: BLE001
+        return None
+
+
 def run_C07(run):
     thorough = run.tier == 'thorough'
     reg, neg, other, core = c07_atoms(run.tier)
@@ -626,7 +670,12 @@ def run_C07(run):
         d2.append((f"~({expr})", ('~', expr, None, False)))
         d2.append((f"~(~({expr}))", ('~~', expr, None, False)))
     accs2 = common.pmap(_task_c07, [(c, 0, False) for c in common.chunks(d2, 800)])
-    tot = merge(run, accs + accs2)
+    # second use of the same object
+    core_cls_all = [c for c in core if c.startswith('Any')] + ["AnyFrom('a', 'z', '5')", "AnyFrom('a', 'b', 'x')"]
+    steps = [('-', "'z'"), ('-', "'a'"), ('|', "'q'"), ('-', "AnyFrom('a', 'b')"), ('|', "AnyBetween('c', 'k')"), ('-', "AnyBetween('b', 'y')"), ('~', ''),
+             ('-', "'x'"), ('|', "AnyDigit()")]
+    accs3 = common.pmap(_task_second_use, [(c, steps) for c in common.chunks(core_cls_all, 3)])
+    tot = merge(run, accs + accs2 + accs3)
     outcomes = set()
     for a in accs + accs2:
         outcomes |= a.get('outcomes', set())
